@@ -235,11 +235,12 @@ fn corpus(tier: Tier) -> &'static Corpus {
 
 pub fn plan(tier: Tier) -> Vec<Phase> {
     let c = corpus(tier);
-    let (multi, arbitrary) = if tier == Tier::Quick { (150_000, 60_000) } else { (3_000_000, 1_000_000) };
+    let (multi, arbitrary, large) = if tier == Tier::Quick { (150_000, 60_000, 120_000) } else { (3_000_000, 1_000_000, 3_000_000) };
     vec![
         Phase { name: "single-faults", count: c.total, exhaustive: true },
         Phase { name: "multi-faults", count: multi, exhaustive: false },
         Phase { name: "arbitrary-bytes", count: arbitrary, exhaustive: false },
+        Phase { name: "large-files", count: large, exhaustive: false },
     ]
 }
 
@@ -427,6 +428,44 @@ pub fn generate(tier: Tier, phase: &str, idx: u64, r: &mut Prng) -> Sc {
                     data: Blob(data),
                     origin: format!("{}:multi:{}", f.name, kinds.join("+")),
                 },
+                transport,
+            }
+        }
+        "large-files" => {
+            // valid files of many records (the readers' buffers are compacted many times), whole or cut at a
+            // random byte / at a line boundary / with one late mutation, under a random transport
+            let format = Format::ALL[(idx % 7) as usize];
+            let max_records = if idx % 11 == 0 { 400 } else { 60 };
+            let model = gen::gen_file(r, format, max_records);
+            let mut data = model.render();
+            let len = data.len();
+            let class = r.below(96);
+            let mut transport = gen::gen_transport(r, &data, class);
+            let kind = match r.below(4) {
+                0 => "whole",
+                1 => {
+                    transport.truncate = Some(r.usize_below(len + 1));
+                    "cut-anywhere"
+                }
+                2 => {
+                    // cut right after a newline in the last tenth of the file
+                    let from = len - len / 10;
+                    let nl: Vec<usize> = (from..len).filter(|&i| data[i] == b'\n').collect();
+                    if !nl.is_empty() {
+                        transport.truncate = Some(*r.pick(&nl) + 1);
+                    }
+                    "cut-at-line"
+                }
+                _ => {
+                    if len > 0 {
+                        let o = len - 1 - r.usize_below((len / 8).max(1).min(len));
+                        data[o] = *r.pick(&SUBST);
+                    }
+                    "late-mutation"
+                }
+            };
+            Sc {
+                input: Input::Bytes { format, data: Blob(data), origin: format!("large:{}", kind) },
                 transport,
             }
         }
